@@ -1,5 +1,6 @@
 (* C05 - After unschedule/remove/stop returns, the removed handler is never called again. *)
-Require Import WD.Base.Prelude WD.Model.Observer WD.Proofs.ObserverProofs WD.Proofs.ObserverExamples.
+Require Import WD.Base.Prelude WD.Model.Observer WD.Proofs.ObserverProofs WD.Proofs.ObserverInv WD.Proofs.ObserverRet
+  WD.Proofs.ObserverDisp WD.Proofs.ObserverLive WD.Proofs.ObserverExamples.
 
 (* In every run: if a callback (h,w,_) occurs after a removal event that covers (h,w) - the mutation of
    remove_handler_for_watch (GRemoved), unschedule / a failed start (GRemovedW), unschedule_all / stop
@@ -45,12 +46,47 @@ Theorem C05_exited_emitter_silent : forall s l e m,
 Proof. exact exited_no_step. Qed.
 Print Assumptions C05_exited_emitter_silent.
 
-(* Full statement in terms of Return labels; what is missing is the (purely structural) invariant that a
-   non-raised GRet of a removing call is preceded, after its GCall, by its removal event, and that an
-   exited emitter stays exited. *)
-Definition C05_full : Prop := forall s, reachable s ->
+(* FULL STATEMENT, Return-label form (the log is newest-first).  If a callback (h,w,_) occurs after the
+   non-raised Return of a call c by thread t that removes (h,w) - remove_handler_for_watch(h,w),
+   unschedule(w), unschedule_all(), stop() - then: the call's removal event r lies between the call's
+   begin and its Return (no begin of t's call c in between), and (h,w) was registered again after r.
+   (The earlier formulation "re-added after the Return" is false of the code and of the model: another
+   thread may re-add (h,w) between the removing call's release of the lock and its Return.) *)
+Theorem C05_full : forall s, reachable s ->
   forall l3 h w e l2 t c l1, glog s = l3 ++ GCb h w e :: l2 ++ GRet t c false :: l1 ->
-    (c = CRemove h w \/ c = CUnschedule w \/ c = CUnscheduleAll \/ c = CStop) -> In (GAdded h w) l2.
+    (c = CRemove h w \/ c = CUnschedule w \/ c = CUnscheduleAll \/ c = CStop) ->
+    exists la r lb, l1 = la ++ r :: lb /\ covers r h w /\
+      (forall x, In x la -> is_call_of x t c = false) /\
+      In (GAdded h w) (l2 ++ GRet t c false :: la).
+Proof. exact no_callback_after_return. Qed.
+Print Assumptions C05_full.
+
+(* LockInv: an instruction that touches the registry - in particular the removal instruction of a removing
+   call and everything up to its release, and every handler turn - is reached only with the lock held by
+   the executing thread; callbacks are made by the dispatcher thread while it holds the lock. *)
+Theorem C05_registry_access_under_lock : forall s t i k, reachable s -> cont s t = i :: k -> needs_lock i = true ->
+  exists n, lock s = Some (t, S n).
+Proof. exact needs_lock_owner. Qed.
+Print Assumptions C05_registry_access_under_lock.
+
+Theorem C05_callback_under_lock : forall s t i k inp s' h w e x, reachable s -> cont s t = i :: k ->
+  exec s t i k inp = Some s' -> glog s' = GCb h w e :: x :: glog s ->
+  t = TD /\ exists n, lock s = Some (TD, S n).
+Proof. exact callback_under_lock. Qed.
+Print Assumptions C05_callback_under_lock.
+
+(* "Exited" is stable: once an emitter thread has exited it stays exited along every run. *)
+Theorem C05_exited_stable : forall e s l s', exited_at e s -> step s l = Some s' -> exited_at e s'.
+Proof. exact exited_stable. Qed.
+Print Assumptions C05_exited_stable.
+
+(* Emitter half, still partial: C05_unschedule_joins + C05_join_means_exited + C05_exited_emitter_silent give
+   "unschedule stops and joins the emitter it removed, join returns only for an exited or never started
+   thread, an exited thread never puts and stays exited (C05_exited_stable)"; not proved: that a removed, never started emitter is never started
+   later (start() only starts emitters of the registry, under the lock). *)
+Definition C05_emitter_full : Prop := forall s, reachable s ->
+  forall l3 e w ev l2 t l1, glog s = l3 ++ GPut e w ev :: l2 ++ GRet t (CUnschedule w) false :: l1 ->
+    exists la lb, l1 = la ++ GRemovedW w :: lb /\ In (GEmNew e w) (l2 ++ GRet t (CUnschedule w) false :: la).
 
 Example C05_nonvacuous :
   option_map (fun s => (delivered 1%N 2%N s, dequeued 2%N s, existsb (fun g => match g with GRemoved 1%N 2%N => true | _ => false end) (glog s)))
